@@ -72,6 +72,22 @@ func Do3(f0, f1, f2 func() (int, error)) (int, int, int, error) {
 func Do4(f0, f1, f2, f3 func() (int, error)) (int, int, int, int, error) {
 	return deriveDo4(f0, f1, f2, f3)
 }
+
+// Namer is an interface-typed result: a function that fails returns the nil interface next to its error.
+type Namer interface{ Name() string }
+
+// Tag is the Namer the functions return.
+type Tag int
+
+func (t Tag) Name() string { return "tag" }
+
+func DoM2(f0 func() (Namer, error), f1 func() (int, error)) (Namer, int, error) {
+	return deriveDoM2(f0, f1)
+}
+
+func DoM3(f0 func() (int, error), f1 func() (interface{}, error), f2 func() (Namer, error)) (int, interface{}, Namer, error) {
+	return deriveDoM3(f0, f1, f2)
+}
 `)
 	// chan T is assignable to <-chan T, so the bidirectional forms live in a package of their own
 	// (one package cannot name two functions for argument types that are assignable to each other)
